@@ -14,7 +14,7 @@ EXPLANATION = ('Integer kernels: the wrap expression of parse_atomlist, the widt
                'translation is validated on every run by evaluating the real function and the z3 term on the same numbers.  '
                'String level: CrossHair executes the real parse_atomlist / parse_atomline / GroFile write-close-read on symbolic '
                'ints and short symbolic names under a time budget; "confirmed" and "no counterexample found" are reported separately.')
-BOUNDS = {'files': 'write-close-read of 3-record files: 7 number classes x 7, 5 name pairs, velocities on/off, count declared/deferred, 4 box kinds, decimals 1..6 (symbolic choice integers)',
+BOUNDS = {'files': 'write-close-read of 3-record files: 7 number classes x 7, 5 name pairs, velocities on/off, count declared/deferred, 4 box kinds, decimals 1..6 (symbolic choice integers); all 512 zero/non-zero patterns of a 3x3 box',
           'numbers': 'all integers in [0, 10^7] (kernels); CrossHair symbolic ints in the same range',
           'field width W': 'all W >= 6 (decimals >= 1) with and without velocities', 'names': '1..5 characters (CrossHair, bounded search)',
           'floats': 'fixed boundary set (x.xxx5 ties, negatives, width-filling values) - concrete'}
@@ -30,6 +30,7 @@ def cases(tier):
     t = 40 if tier == 'quick' else 240
     for dec in (1, 2, 3, 4, 5, 6):
         cs.append({'name': 'file-roundtrip/decimals%d' % dec, 'dec': dec})
+    cs.append({'name': 'box-patterns'})
     for fn in ('numbers_roundtrip', 'names_roundtrip', 'line_width_constant'):
         cs.append({'name': 'crosshair/' + fn, 'fn': fn, 'budget': t})
     return cs
@@ -171,6 +172,8 @@ def run_case(case):
         samples.append({'backfill_offset': str(off), 'seek_atom': str(off2)})
         return {'records': records, 'paths': 0, 'queries': 3, 'solver_s': 0, 'samples': samples, 'nontrivial': nontrivial}
 
+    if name == 'box-patterns':
+        return _box_patterns(case)
     if name.startswith('file-roundtrip'):
         return _file_roundtrip(case)
     from symx.chrun import run_crosshair
@@ -302,8 +305,88 @@ def _file_roundtrip(case):
     return {'records': records, 'paths': paths, 'queries': 1, 'solver_s': 0, 'samples': samples, 'nontrivial': nontrivial}
 
 
+BOX_BASE = [[3.0, 0.125, -0.25], [0.5, 4.0, 0.0625], [-0.75, 1.5, 5.0]]
+
+
+def _box_once(bits):
+    """3x3 box whose entry k (row-major) is BOX_BASE's when bit k is set and 0 otherwise, written by the real GroFile
+    and read back -> list of problems"""
+    import os
+    import tempfile
+    import warnings
+    import numpy as np
+    from gaddlemaps.parsers import GroFile, dump_lattice_gro, extract_lattice_gro
+    B = np.array([[BOX_BASE[i][j] if bits[3 * i + j] else 0.0 for j in range(3)] for i in range(3)])
+    problems = []
+    try:
+        back = extract_lattice_gro(dump_lattice_gro(B.copy()))
+        if np.abs(back - B).max() > 5e-6:
+            problems.append('dump_lattice_gro/extract_lattice_gro: %s read back as %s' % (B.tolist(), back.tolist()))
+    except Exception as e:
+        problems.append('%s: %s' % (type(e).__name__, e))
+    d = tempfile.mkdtemp(prefix='c13b-')
+    p = os.path.join(d, 'box.gro')
+    try:
+        with warnings.catch_warnings():
+            warnings.simplefilter('ignore')
+            f = GroFile(p, 'w')
+            f.comment = 'box'
+            f.box_matrix = B.copy()
+            f.writeline([1, 'RES', 'AT', 1, 1.0, 2.0, 3.0])
+            f.close()
+            g = GroFile(p)
+            got = np.array(g.box_matrix, dtype=float)
+            g.close()
+        if got.shape != (3, 3) or np.abs(got - B).max() > 5e-6:
+            problems.append('file: box %s read back as %s' % (B.tolist(), got.tolist()))
+    except Exception as e:
+        problems.append('%s: %s' % (type(e).__name__, e))
+    finally:
+        try:
+            os.remove(p)
+        except OSError:
+            pass
+        os.rmdir(d)
+    return problems
+
+
+def _box_patterns(case):
+    """which of the nine box entries are non-zero is a vector of symbolic 0/1 integers: every pattern is one path"""
+    from symx.core import explore, SymInt
+    bv = [z3.Int('nz%d' % k) for k in range(9)]
+    bad, cover, paths, samples = None, [], 0, []
+
+    def run(ctx):
+        bits = []
+        for v in bv:
+            ctx.assume(z3.And(v >= 0, v <= 1))
+            bits.append(SymInt(v, 0, 1).concretize())
+        return bits
+    for ctx, bits, exc in explore(run, max_paths=2000):
+        paths += 1
+        cover.append(z3.And(*ctx.pc) if ctx.pc else z3.BoolVal(True))
+        problems = _box_once(bits)
+        if problems and bad is None:
+            bad = {'bits': bits, 'problems': problems[:2]}
+        if len(samples) < 2:
+            samples.append({'nonzero': bits})
+    rec = {'name': 'every zero/non-zero pattern of the 3x3 box (%d patterns): box line written and read back gives the same box to 5e-6 (encoder/decoder and whole file)' % paths,
+           'status': 'unsat' if bad is None else 'sat', 'secs': 0}
+    if bad:
+        rec['witness'] = {'kind': 'box', **bad}
+    s = z3.Solver(); s.set('timeout', 60000)
+    s.add(*[z3.And(v >= 0, v <= 1) for v in bv]); s.add(z3.Not(z3.Or(*cover)))
+    r = str(s.check())
+    return {'records': [rec, {'name': 'box patterns: explored paths exhaust the symbolic choices', 'status': 'unsat' if r == 'unsat' else 'unknown', 'secs': 0},
+                        {'name': 'reachability-twin', 'status': 'twin', 'secs': 0}],
+            'paths': paths, 'queries': 1, 'solver_s': 0, 'samples': samples, 'nontrivial': ['box-patterns']}
+
+
 def replay(w):
     from gaddlemaps.parsers import GroFile
+    if w['kind'] == 'box':
+        problems = _box_once(w['bits'])
+        return {'reproduced': bool(problems), 'what': 'gro box with non-zero pattern %s: %s' % (''.join(map(str, w['bits'])), '; '.join(problems)[:300]), 'detail': {}}
     if w['kind'] == 'file':
         problems = _roundtrip_once(w['dec'], w['ni'], w['nj'], w['name'], w['vel'], w['declare'], w['box'])
         return {'reproduced': bool(problems), 'what': 'gro file write-read (decimals %d, %s box, velocities %s, count %s): %s' % (
